@@ -39,6 +39,8 @@ type genericTask struct {
 	activityType ActivityType
 	active       atomic.Int32
 	mch          chan imessage
+	// gone is closed when run returns
+	gone chan struct{}
 }
 
 func newTask(element schema.FlowNodeInterface, activityType ActivityType) constructor {
@@ -49,6 +51,7 @@ func newTask(element schema.FlowNodeInterface, activityType ActivityType) constr
 			activityType: activityType,
 			active:       atomic.Int32{},
 			mch:          make(chan imessage, len(wr.incoming)*2+1),
+			gone:         make(chan struct{}),
 		}
 		activity = taskNode
 		return
@@ -56,6 +59,7 @@ func newTask(element schema.FlowNodeInterface, activityType ActivityType) constr
 }
 
 func (task *genericTask) run(ctx context.Context) {
+	defer close(task.gone)
 	// closed to withdraw the requests that are pending when the task is cancelled
 	interrupt := make(chan struct{})
 	for {
@@ -136,7 +140,13 @@ func (task *genericTask) NextAction(ctx context.Context, flow Flow) chan IAction
 		response:    response,
 	}
 
-	task.mch <- msg
+	// the node's goroutine ends with the context: nobody may be left to take the
+	// token, which then leaves on its own cancellation (a nil channel never fires)
+	select {
+	case task.mch <- msg:
+	case <-ctx.Done():
+		return nil
+	}
 	return response
 }
 
@@ -149,7 +159,12 @@ func (task *genericTask) Type() ActivityType {
 }
 
 func (task *genericTask) Cancel() <-chan bool {
-	response := make(chan bool)
-	task.mch <- cancelMessage{response: response}
+	response := make(chan bool, 1)
+	select {
+	case task.mch <- cancelMessage{response: response}:
+	case <-task.gone:
+		// nothing left to cancel
+		response <- true
+	}
 	return response
 }
